@@ -171,7 +171,13 @@ def expected_binary(cls, op, lt, rt):
     if cls == 'Bitwise':
         return ty if (ty in (BOOL, INT, UINT) or is_enum(ty)) else None
     if cls == 'Comparison':
-        return BOOL if (ty in (BOOL, INT, UINT, DOUBLE, STRING) or is_enum(ty) or ty[0] == 'Pointer') else None
+        if ty[0] == 'Pointer':
+            # C-like: pointers compare equal / unequal, also against null; two pointers can be ordered, a pointer and null cannot
+            # ([expr.rel]; enforced since the F22 fix)
+            if op not in ('Equal', 'NotEqual') and (lt == ('NullPointer',) or rt == ('NullPointer',)):
+                return None
+            return BOOL
+        return BOOL if (ty in (BOOL, INT, UINT, DOUBLE, STRING) or is_enum(ty)) else None
     return None
 
 
